@@ -62,6 +62,7 @@ def handle (ds : DState) (op : String) (args impl : List String) : Option (DStat
   let put (ds : DState) (st : CrashSt) : DState := { ds with fileFam := { ds.fileFam with crash := st } }
   let fin (st : CrashSt) (o : Out) : Option (DState × Out) := some (put ds st, o)
   match op with
+  | "cr_linkpath" => fin st (if impl == ["ok"] then .ok "linkpath" else .malformed "cr_linkpath")
   | "cr_fork" => fin { st with inWorker := true, model := none, lastDump := none, durable := none } (if impl == ["ok"] then .ok "fork" else .malformed "cr_fork")
   | "cr_in" =>
     match args with
